@@ -40,7 +40,10 @@ def RULE(tier):
         "within the byte limit, and the call returns. rechunk: EVERY (source, target) chunking pair of 1-d n <= " + ("7 (n = 7: default setting only)" if q else "9 (n = 9: default and method=tasks only)") + ", 2-d "
         + ("(2,3),(3,2),(3,4),(4,4) ((4,4): 3 of the 5 settings)" if q else "(2,3),(3,2),(3,4),(4,4),(2,6),(3,5),(4,5) ((4,5): 3 of the 5 settings)") + " and 3-d (2,2,3) x settings {default, method='tasks', threshold=1 with block_size_limit in "
         "{1,16,32} bytes (forces multi-stage plans), balance=True}, sources/targets with zero-length chunks for n <= 4, spec targets "
-        "(int, -1, dict, 'auto' with a limit), unknown-size (NaN) source axes; plan_rechunk directly over every chunking pair of (2,3),(3,4),(2,2,3),(4,4)" + ("" if q else ",(3,5)") + " x itemsize {1,8} x "
+        "(int, -1, dict, 'auto' with a limit), unknown-size (NaN) source axes; JOINT evaluation: for every source chunking of 1-d n <= " + ("5" if q else "6") + " and "
+        + ("(2,3),(3,2),(3,4)" if q else "(2,3),(3,2),(3,4),(2,2,3)") + " EVERY pair of distinct target chunkings (and all targets at once) rechunked from the SAME source and evaluated "
+        "together -- all blocks from one merged optimized graph (= dask.compute(y1, y2)) and inside one expression y1 + 10*y2" + (" (pairs of (3,4): merged graph only)" if q else "") + " -- each against "
+        "the requested chunks, declared block shapes and source values; plan_rechunk directly over every chunking pair of (2,3),(3,4),(2,2,3),(4,4)" + ("" if q else ",(3,5)") + " x itemsize {1,8} x "
         "threshold {1,2,4} x block_size_limit {1,16,64,None}: every stage sums to the shape and the last is the target. Oracle: result "
         "chunks == requested, every computed block has its declared shape, assembled values == source. non-trivial = source != target "
         "(rechunk) / an 'auto' axis (normalize)."
@@ -85,6 +88,15 @@ def shards(tier):
     for shp in [(2, 3), (3, 4)]:
         out.append(("respec2", shp))
     out.append(("renan", (3, 4)))
+    # JOINT evaluation: several rechunks of the SAME source inside one graph
+    for n in range(2, (5 if q else 6) + 1):
+        parts = 1 if n <= 3 else (2 if n == 4 else (8 if n == 5 else 32))
+        for p in range(parts):
+            out.append(("joint", (n,), p, parts))
+    for shp in [(2, 3), (3, 2), (3, 4)] + ([] if q else [(2, 2, 3)]):
+        parts = {(2, 3): 2, (3, 2): 2, (3, 4): 32, (2, 2, 3): 32}[shp]
+        for p in range(parts):
+            out.append(("joint", shp, p, parts))
     return out
 
 
@@ -214,6 +226,28 @@ def cases_of(shard, tier):
             for mask in enums.masks(shp[0]):
                 for tgt1 in enums.compositions(shp[1]):
                     yield ("renan", shp, tuple(src), tuple(mask), tgt1)
+    elif kind == "joint":
+        shp, part, nparts = shard[1], shard[2], shard[3]
+        chs = [tuple(c) for c in enums.chunkings(shp)]
+        big = shp in ((3, 4), (2, 2, 3))
+        j = 0
+        for src in chs:
+            j += 1
+            if j % nparts == part:
+                # every target chunking of this source at once
+                yield ("jointall", shp, src, "compute")
+                yield ("jointall", shp, src, "expr")
+            for a, t1 in enumerate(chs):
+                for b, t2 in enumerate(chs):
+                    if a == b:
+                        continue
+                    j += 1
+                    if j % nparts != part:
+                        continue
+                    if a < b:
+                        yield ("joint", shp, src, (t1, t2), "compute")  # symmetric in (t1, t2)
+                    if not (big and tier == "quick"):
+                        yield ("joint", shp, src, (t1, t2), "expr")  # y1 + 10*y2: ordered pairs
     else:
         raise ValueError(kind)
 
@@ -540,7 +574,96 @@ def run_renan(case, ctx):
         ctx.violation("renan:wrong-value", case, why)
 
 
-RUN = {"norm": run_norm, "re": run_re, "plan": run_plan, "respec": run_respec, "renan": run_renan}
+def joint_blocks(arrays):
+    """all blocks of several arrays computed from ONE merged, optimized graph (what dask.compute(*arrays) executes)
+    -> list of (assembled ndarray | None, problem | None) per array"""
+    import dask
+    from dask.base import collections_to_expr
+    from dask.core import flatten
+
+    # the same merge + optimization dask.compute(*arrays) performs, stopped before the per-array finalization so that the
+    # individual blocks stay observable
+    dsk = collections_to_expr(list(arrays), optimize_graph=True).optimize().__dask_graph__()
+    flats = [list(flatten(a.__dask_keys__())) for a in arrays]
+    vals = dask.get(dsk, flats)
+    out = []
+    for a, vs in zip(arrays, vals):
+        grid = np.empty(a.numblocks, dtype=object)
+        problem = None
+        for idx, v in zip(itertools.product(*[range(k) for k in a.numblocks]), vs):
+            v = np.asanyarray(v)
+            want = tuple(c[i] for c, i in zip(a.chunks, idx))
+            if v.shape != want:
+                problem = problem or f"block {idx} has shape {v.shape}, declared {want}"
+            grid[idx] = v
+        try:
+            whole = np.block(grid.tolist())
+        except Exception as e:  # noqa: BLE001
+            whole, problem = None, problem or f"blocks do not tile: {e!r}"
+        out.append((whole, problem))
+    return out
+
+
+def run_joint(case, ctx):
+    """two (joint) or all (jointall) rechunks of one source evaluated together: in one compute call / in one expression"""
+    import dask.array as da
+
+    if case[0] == "joint":
+        _, shp, src, tgts, mode = case
+    else:
+        _, shp, src, mode = case
+        tgts = tuple(tuple(c) for c in enums.chunkings(shp))
+    x = arr.data(shp, ctx.seed)
+    d = da.from_array(x, chunks=src)
+    key = "joint-" + mode
+    exc = None
+    res = ys = z = None
+    try:
+        ys = [d.rechunk(t) for t in tgts]
+        if mode == "compute":
+            res = joint_blocks(ys)
+        else:
+            # one expression over differently chunked views of the same array: sum_k 10**k * y_k (elementwise ops unify the
+            # chunks, i.e. rechunk again inside the same graph)
+            z = ys[0]
+            for k, y in enumerate(ys[1:3], start=1):
+                z = z + (10**k) * y
+            if len(ys) > 3:
+                z = z + da.stack([y.sum() for y in ys]).sum() * 0
+            res = arr.compute_blocks(z)
+    except Hang:
+        raise
+    except Exception as e:  # noqa: BLE001
+        exc = e
+    ctx.case(case, nontrivial=len({src, *tgts}) >= 3, outcome=(mode, type(exc).__name__))
+    if exc is not None:
+        ctx.violation(f"{key}:dask-raises:{type(exc).__name__}{re_class(case)}", case, f"raised {exc!r}")
+        return
+    for y, t in zip(ys, tgts):
+        if y.chunks != t:
+            ctx.violation(f"{key}:wrong-chunks{re_class(case)}", case, f"result chunks {y.chunks} != requested {t}")
+            return
+    if mode == "compute":
+        for t, (got, problem) in zip(tgts, res):
+            if problem:
+                ctx.violation(f"{key}:lazy-metadata{re_class(case)}", case, f"target {t}: {problem}")
+                return
+            why = arr.equal(got, x)
+            if why:
+                ctx.violation(f"{key}:wrong-value{re_class(case)}", case, f"target {t}: {why}")
+                return
+    else:
+        got, problem = res
+        if problem:
+            ctx.violation(f"{key}:lazy-metadata{re_class(case)}", case, problem)
+            return
+        want = x * sum(10**k for k in range(min(len(ys), 3)))
+        why = arr.equal(got, want)
+        if why:
+            ctx.violation(f"{key}:wrong-value{re_class(case)}", case, why)
+
+
+RUN = {"joint": run_joint, "jointall": run_joint, "norm": run_norm, "re": run_re, "plan": run_plan, "respec": run_respec, "renan": run_renan}
 
 
 def run_case(case, ctx):
